@@ -88,6 +88,7 @@ struct Gen {
 };
 
 static pplv::Journal J(1);
+static bool repaired[8] = { false };   // --repaired 1,3: classes of known findings measured as repaired: exercise them again
 static bool exhaustive = false;   // replay mode: exhaustive position-level probes on small trees
 
 // =================================================================================================
@@ -760,7 +761,7 @@ static void gen_row(RowH& H, pplv::Rng& R, long len) {
     else if (x < 65) H.apply(mk("row", "swapit", { sa, ls(i), ls(j) }));
     else if (x < 68) H.apply(mk("row", "shift", { sa, ls(R.range(0, 3)), ls(R.range(0, sz)) }));
     else if (x < 71) H.apply(mk("row", "del", { sa, ls(i) }));
-    else if (x < 73) H.apply(mk("row", "resize", { sa, ls(std::max(0L, sz + R.range(-4, 4))) }));
+    else if (x < 73) H.apply(mk("row", "resize", { sa, ls((repaired[4] && R.chance(1, 6)) ? 0L : std::max(0L, sz + R.range(-4, 4))) }));
     else if (x < 75) H.apply(mk("row", "norm", { sa }));
     else if (x < 80) {
       // make the sizes agree, then combine whole rows
@@ -780,9 +781,13 @@ static void gen_row(RowH& H, pplv::Rng& R, long len) {
       H.apply(mk("row", "comb", { sa, sb, ls((long)R.below(3)), cs(G.small_nz()), cs(G.small_nz()) }));
     }
     else if (x < 90) H.apply(mk("row", R.chance(1, 2) ? "swaprows" : "swapmix", { sa, sb }));
-    else if (x < 92) H.apply(mk("row", R.chance(1, 2) ? "copy" : "conv", { sa, sb }));
-    else if (x < 94) H.apply(mk("row", "convsz", { sa, sb, ls((long)H.S[b].size() + R.range(0, 3)), "0" }));
-    else if (x < 95) H.apply(mk("row", R.chance(1, 2) ? "asgsd" : "asgds", { sa, sb }));
+    else if (x < 92) { if (R.chance(1, 2)) H.apply(mk("row", "copy", { sa, sb })); else H.apply(mk("row", "conv", { sa, sb, repaired[4] ? "1" : "0" })); }
+    else if (x < 94) {
+      long sb_sz = (long)H.S[b].size();
+      if (repaired[2]) H.apply(mk("row", "convsz", { sa, sb, ls(std::max(1L, sb_sz + R.range(-4, 3))), "1" }));
+      else H.apply(mk("row", "convsz", { sa, sb, ls(sb_sz + R.range(0, 3)), "0" }));
+    }
+    else if (x < 95) H.apply(mk("row", (repaired[1] && R.chance(2, 3)) ? "asgds_raw" : (R.chance(1, 2) ? "asgsd" : "asgds"), { sa, sb }));
     else if (x < 98) H.apply(mk("row", "eq", { sa, sb }));
     else if (x < 99) { long m = R.range(2, 4); H.apply(mk("row", "erasewhile", { sa, ls(m), ls(R.range(0, m - 1)) })); }
     else if (R.chance(1, 4)) H.apply(mk("row", "clear", { sa }));
@@ -813,7 +818,7 @@ static void gen_expr(ExprH& H, pplv::Rng& R, long len) {
     else if (x < 46) H.apply(mk("expr", "lc3", { sa, sb, cs(R.chance(1, 3) ? Coefficient(1) : G.small_nz()), cs(G.small_nz()), mix }));
     else if (x < 49) {
       Coefficient c1 = R.chance(1, 3) ? Coefficient(0) : G.small_nz(), c2 = R.chance(1, 4) ? Coefficient(0) : G.small_nz();
-      H.apply(mk("expr", "lclax", { sa, sb, cs(c1), cs(c2), (c1 == 0 && c2 != 0) ? std::string("0") : mix, "0" }));
+      H.apply(mk("expr", "lclax", { sa, sb, cs(c1), cs(c2), (c1 == 0 && c2 != 0 && !repaired[3]) ? std::string("0") : mix, repaired[3] ? "1" : "0" }));
     }
     else if (x < 52) { if (dim == dimb) H.apply(mk("expr", "lcv", { sa, sb, ls(v), mix })); }
     else if (x < 60) {
@@ -821,7 +826,7 @@ static void gen_expr(ExprH& H, pplv::Rng& R, long len) {
       bool lax = R.chance(1, 3);
       Coefficient c1 = lax && R.chance(1, 3) ? Coefficient(0) : (R.chance(1, 3) ? Coefficient(1) : G.small_nz());
       Coefficient c2 = lax && R.chance(1, 4) ? Coefficient(0) : G.small_nz();
-      H.apply(mk("expr", lax ? "lclaxr" : "lcr", { sa, sb, cs(c1), cs(c2), ls(s), ls(e), (lax && c1 == 0 && c2 != 0) ? std::string("0") : mix, "0" }));
+      H.apply(mk("expr", lax ? "lclaxr" : "lcr", { sa, sb, cs(c1), cs(c2), ls(s), ls(e), (lax && c1 == 0 && c2 != 0 && !repaired[3]) ? std::string("0") : mix, repaired[3] ? "1" : "0" }));
     }
     else if (x < 63) H.apply(mk("expr", "swapd", { sa, ls(v), ls(w) }));
     else if (x < 66) { Op o = mk("expr", "rmd", { sa }); long c = R.range(0, 3); for (long q = 0; q < c && dim; ++q) o.a.push_back(ls(R.range(0, dim - 1))); H.apply(o); }
@@ -837,7 +842,7 @@ static void gen_expr(ExprH& H, pplv::Rng& R, long len) {
       if (R.chance(1, 2)) H.apply(mk("expr", "mulr", { sa, cs(R.chance(1, 6) ? Coefficient(0) : G.small_nz()), ls(s), ls(e) })); else H.apply(mk("expr", "negr", { sa, ls(s), ls(e) })); }
     else if (x < 81) { long s = R.range(0, dim + 1), e = R.range(0, dim + 1); if (s > e) std::swap(s, e); H.apply(mk("expr", "exdivg", { sa, ls(s), ls(e) })); }
     else if (x < 83) H.apply(mk("expr", "copyrep", { sa, sb }));
-    else if (x < 85) H.apply(mk("expr", "ctor3", { sa, sb, ls(std::max(0L, dimb + R.range(-2, 3))), mix, "0" }));
+    else if (x < 85) H.apply(mk("expr", "ctor3", { sa, sb, ls(std::max(0L, dimb + R.range(-2, 3))), mix, repaired[2] ? "1" : "0" }));
     else if (x < 89) { long s = R.range(0, dim + 1), e = R.range(0, dim + 1); if (s > e) std::swap(s, e); H.apply(mk("expr", "q", { sa, ls(s), ls(e) })); }
     else if (x < 95) { long m = std::min(dim, dimb) + 1; long s = R.range(0, m), e = R.range(0, m); if (s > e) std::swap(s, e);
       H.apply(mk("expr", "q2", { sa, sb, ls(s), ls(e), cs(G.small_nz()), cs(G.small_nz()) })); }
@@ -912,6 +917,8 @@ static void run_replay(const char* path) {
 int main(int argc, char** argv) {
   const char* rp = pplv::arg_str(argc, argv, "--replay", nullptr);
   if (rp) return pplv::run_batches(0, 1, [&](long) { run_replay(rp); }, 20);
+  { const char* rp2 = pplv::arg_str(argc, argv, "--repaired", "");
+    for (const char* q = rp2; *q; ++q) if (*q >= '1' && *q <= '7') repaired[*q - '0'] = true; }
   long seed = pplv::arg_long(argc, argv, "--seed", 1), first = pplv::arg_long(argc, argv, "--first", 0),
        last = pplv::arg_long(argc, argv, "--last", 30), len = pplv::arg_long(argc, argv, "--len", 0),
        kf = pplv::arg_long(argc, argv, "--kf", 0);
